@@ -172,4 +172,172 @@ Section Byte.
     destruct (binv_facts _ I0) as (d0 & _ & P0 & L0). destruct (binv_facts _ I1) as (d1 & _ & P1 & L1).
     cbn [br_dec br_buf] in *. rewrite lenN_dropN in L1. lia.
   Qed.
+
+  (* ---- seek *)
+  Lemma binv_after_dec_seek pre rest o g :
+    f_slots F = pre ++ rest -> o = sumlen pre ->
+    BInv {| br_dec := {| d_rest := rest; d_cur := o; d_buf := g |}; br_buf := [] |} /\
+    bpos F {| br_dec := {| d_rest := rest; d_cur := o; d_buf := g |}; br_buf := [] |} = o * bpf.
+  Proof.
+    intros E Eo. split.
+    - exists pre, (bdata F pre). cbn [br_dec br_buf d_rest d_cur]. rewrite app_nil_r. auto.
+    - unfold bpos. cbn. lia.
+  Qed.
+
+  Lemma sumlen_pre_le pre rest : f_slots F = pre ++ rest -> sumlen pre <= total_frames F.
+  Proof. intros E. rewrite (split_total F _ _ E). lia. Qed.
+
+  (* the skip loop after landing on a seek point *)
+  Lemma byte_skip_spec fuel : forall r new_pos desired,
+    BInv r -> bpos F r = new_pos -> new_pos <= desired -> desired < U64 ->
+    (new_pos < desired -> br_buf r = []) -> (length (d_rest (br_dec r)) < fuel)%nat ->
+    let (r', o) := byte_skip F fuel r new_pos desired in
+    BInv r' /\
+    ((desired <= lenN data /\ o = OPos desired /\ bpos F r' = desired) \/
+     (lenN data < desired /\ o = OErr EEof /\ bpos F r' = lenN data)).
+  Proof.
+    induction fuel as [|fuel IH]; intros r new_pos desired I P Hle Hd Hbuf Hfuel; [lia|].
+    cbn [byte_skip]. destruct (N.ltb_spec new_pos desired) as [Hlt|Hge].
+    - specialize (Hbuf Hlt). unfold byte_fill_buf. rewrite Hbuf.
+      destruct (byte_refill_spec r I Hbuf) as [(Er & ->)|(f & rest & r1 & Er & Hf & -> & I1 & Eb1 & Er1 & P1)].
+      + split; [exact I|]. right. rewrite <- P in *. rewrite (at_end r I Hbuf Er) in *. auto.
+      + pose proof (serf_nonempty f Hf) as Hne. rewrite Eb1. cbn beta in *.
+        destruct (ser (f_endian F) (bytes_per_sample (f_bps F)) (interleave f)) as [|b0 bs] eqn:Es; [congruence|].
+        rewrite u64_sub_ok by lia. cbn [bind]. rewrite (v_usize F V), usize_ok by lia.
+        set (to_skip := N.min (desired - new_pos) (lenN (b0 :: bs))).
+        assert (Hts : to_skip <= lenN (br_buf r1)) by (rewrite Eb1; unfold to_skip; lia).
+        destruct (byte_consume_ok r1 to_skip I1 Hts) as (I2 & C2).
+        unfold byte_consume in *. apply N.leb_le in Hts as Hts'. rewrite Hts' in *. cbn [fst snd] in *.
+        destruct C2 as (_ & _ & C2). cbn [abs_b e_op e_out e_pos e_pos' abs_out_data bytes_of no_item byte_step] in C2.
+        unfold byte_consume in C2. rewrite Hts' in C2. cbn [fst] in C2.
+        rewrite u64_add_ok by (unfold to_skip; lia).
+        apply IH.
+        * exact I2.
+        * rewrite C2, P1, P. reflexivity.
+        * unfold to_skip. lia.
+        * exact Hd.
+        * intros Hlt2. cbn [br_buf]. apply dropN_all. rewrite Eb1. unfold to_skip in *. lia.
+        * cbn [br_dec]. rewrite Er1. rewrite Er in Hfuel. cbn [length] in Hfuel. lia.
+    - split; [exact I|]. left. assert (new_pos = desired) by lia. subst desired.
+      split; [rewrite <- P; now apply bpos_le|]. auto.
+  Qed.
+
+  Definition target_z (r : byte_reader) (sf : seekfrom) : Z :=
+    match sf with
+    | Start p => Z.of_N p
+    | Current d => Z.of_N (bpos F r) + d
+    | End_ d => Z.of_N (lenN data) + d
+    end%Z.
+
+  Lemma cur_le_total r : BInv r -> d_cur (br_dec r) * bpf <= total_frames F * bpf.
+  Proof.
+    intros (pre & done & E & -> & _). pose proof (sumlen_pre_le _ _ E). nia.
+  Qed.
+
+  (* decode.rs:724-777 computes the requested absolute position exactly, or fails exactly when the
+     request points below byte 0 / beyond what u64 or the rules allow *)
+  Lemma desired_pos_spec r sf : BInv r -> seekfrom_ok sf ->
+    match desired_pos F r sf with
+    | Ok (inr p) => sf = Current 0%Z /\ p = bpos F r
+    | Ok (inl d) => d < U64 /\ Z.of_N d = target_z r sf /\ sf <> Current 0%Z /\
+                    (forall q, sf = End_ q -> f_total F <> None)
+    | Err _ => sf <> Current 0%Z /\
+               ((target_z r sf < 0)%Z \/ (Z.of_N (lenN data) < target_z r sf)%Z \/
+                (exists q, sf = End_ q /\ f_total F = None))
+    | Panic _ => False
+    end.
+  Proof.
+    intros I Hok. destruct (binv_facts r I) as (done & _ & P & L).
+    pose proof (cur_le_total r I) as Hc. pose proof (v_range F V) as Hr. pose proof data_len as Hlen.
+    pose proof (bpos_le r I) as Hple.
+    unfold desired_pos, target_z. destruct sf as [q|q|q]; cbn [seekfrom_ok] in Hok.
+    - split; [exact Hok|]. split; [reflexivity|]. split; [discriminate|]. discriminate.
+    - rewrite u64_mul_ok by lia. cbn [bind]. rewrite u64_sub_ok by lia. cbn [bind].
+      replace (d_cur (br_dec r) * bpf - lenN (br_buf r)) with (bpos F r) by (unfold bpos; reflexivity).
+      unfold I64_MIN, I64_MAX in Hok. unfold checked_sub, checked_add, unsigned_abs.
+      destruct (Z.compare_spec q 0) as [->|Hq|Hq].
+      + auto.
+      + destruct (N.leb_spec (Z.abs_N q) (bpos F r)) as [Hb|Hb].
+        * split; [lia|]. split; [lia|]. split; [intros E; inversion E; lia|discriminate].
+        * split; [intros E; inversion E; lia|]. left. lia.
+      + destruct (N.ltb_spec (bpos F r + Z.abs_N q) U64) as [Hb|Hb].
+        * split; [lia|]. split; [lia|]. split; [intros E; inversion E; lia|discriminate].
+        * split; [intros E; inversion E; lia|]. right. left. unfold U64 in *. lia.
+    - destruct (f_total F) as [t|] eqn:Et.
+      + pose proof (v_total F V) as Ht. rewrite Et in Ht. subst t. rewrite (v_rev F V).
+        rewrite u64_mul_ok by lia. cbn [bind]. rewrite <- Hlen.
+        unfold I64_MIN, I64_MAX in Hok. unfold checked_sub, unsigned_abs.
+        destruct (Z.compare_spec q 0) as [->|Hq|Hq].
+        * split; [lia|]. split; [lia|]. split; [discriminate|]. congruence.
+        * destruct (N.leb_spec (Z.abs_N q) (lenN data)) as [Hb|Hb].
+          -- split; [lia|]. split; [lia|]. split; [discriminate|]. congruence.
+          -- split; [discriminate|]. left. lia.
+        * split; [discriminate|]. right. left. lia.
+      + split; [discriminate|]. right. right. now exists q.
+  Qed.
+
+  Lemma seek_target_unfold r sf :
+    seek_target F (lenN data) (bpos F r) sf =
+    (if (match sf with
+         | Current 0%Z => true
+         | End_ _ => f_seekable F && match f_total F with Some _ => true | None => false end
+         | _ => f_seekable F
+         end) && (0 <=? target_z r sf)%Z && (target_z r sf <=? Z.of_N (lenN data))%Z
+     then Some (Z.to_N (target_z r sf)) else None).
+  Proof. unfold seek_target, target_z. destruct sf; reflexivity. Qed.
+
+  Lemma byte_seek_ok r sf : BInv r -> seekfrom_ok sf ->
+    BInv (fst (byte_seek F r sf)) /\ cur_ok data (abs_b F (r, BSeek sf, snd (byte_seek F r sf))).
+  Proof.
+    intros I Hok. pose proof (bpos_le r I) as Hle. pose proof (desired_pos_spec r sf I Hok) as HD.
+    unfold cur_ok, abs_b. cbn [e_pos e_op e_out e_pos' byte_step]. rewrite seek_target_unfold.
+    unfold byte_seek. destruct (desired_pos F r sf) as [[d|p]|e|k]; [| | |contradiction].
+    - (* an absolute position d was computed *)
+      destruct HD as (Hd & Hz & Hn0 & Hend).
+      assert (Hallow : (match sf with
+                        | Current 0%Z => true
+                        | End_ _ => f_seekable F && match f_total F with Some _ => true | None => false end
+                        | _ => f_seekable F
+                        end) = f_seekable F).
+      { destruct sf as [q|q|q]; [reflexivity| |].
+        - destruct q; [congruence|reflexivity|reflexivity].
+        - specialize (Hend q eq_refl). destruct (f_total F); [|congruence]. now rewrite andb_true_r. }
+      rewrite Hallow. rewrite <- Hz. replace (0 <=? Z.of_N d)%Z with true by (symmetry; apply Z.leb_le; lia).
+      rewrite N2Z.id, andb_true_r.
+      destruct (f_seekable F) eqn:Esk; cbn [negb andb].
+      + unfold div_u. pose proof (bpf_pos F V) as Hb. destruct (N.eqb_spec bpf 0) as [|_]; [lia|].
+        destruct (dec_seek_spec F V (br_dec r) (d / bpf)) as (pre & rest & o & E & Eo & Hod & ->).
+        pose proof (sumlen_pre_le _ _ E) as Hpt. pose proof (v_range F V) as Hr.
+        assert (Hob : o * bpf <= d).
+        { pose proof (N.mul_div_le d bpf ltac:(lia)). nia. }
+        rewrite u64_mul_ok by (subst o; nia).
+        destruct (binv_after_dec_seek pre rest o (d_buf (br_dec r)) E Eo) as (I0 & P0).
+        pose proof (byte_skip_spec (S (S (length rest))) _ (o * bpf) d I0 P0 Hob Hd (fun _ => eq_refl)) as HS.
+        cbn [br_dec d_rest] in HS. specialize (HS ltac:(lia)). cbn [d_rest].
+        destruct (byte_skip F (S (S (length rest))) _ (o * bpf) d) as [r' out].
+        destruct HS as (I' & [(Hdl & -> & P')|(Hdl & -> & P')]); cbn [fst snd abs_out_data bytes_of no_item].
+        * split; [exact I'|]. split; [exact Hle|]. split; [now apply bpos_le|].
+          replace (Z.of_N d <=? Z.of_N (lenN data))%Z with true by (symmetry; apply Z.leb_le; lia).
+          auto.
+        * split; [exact I'|]. split; [exact Hle|]. split; [now apply bpos_le|].
+          replace (Z.of_N d <=? Z.of_N (lenN data))%Z with false by (symmetry; apply Z.leb_gt; lia).
+          auto.
+      + cbn [fst snd abs_out_data bytes_of no_item]. split; [exact I|]. split; [exact Hle|]. split; [exact Hle|]. auto.
+    - (* Current(0): only a query *)
+      destruct HD as (-> & ->). cbn [fst snd abs_out_data bytes_of no_item target_z].
+      split; [exact I|]. split; [exact Hle|]. split; [exact Hle|].
+      rewrite Z.add_0_r, N2Z.id.
+      replace (0 <=? Z.of_N (bpos F r))%Z with true by (symmetry; apply Z.leb_le; lia).
+      replace (Z.of_N (bpos F r) <=? Z.of_N (lenN data))%Z with true by (symmetry; apply Z.leb_le; lia).
+      cbn [andb]. auto.
+    - (* rejected before touching anything *)
+      destruct HD as (Hn0 & HD). cbn [fst snd abs_out_data bytes_of no_item].
+      split; [exact I|]. split; [exact Hle|]. split; [exact Hle|].
+      destruct HD as [Hneg|[Hbig|(q & -> & Et)]].
+      + replace (0 <=? target_z r sf)%Z with false by (symmetry; apply Z.leb_gt; lia).
+        rewrite andb_false_r. cbn [andb]. auto.
+      + replace (target_z r sf <=? Z.of_N (lenN data))%Z with false by (symmetry; apply Z.leb_gt; lia).
+        rewrite andb_false_r. auto.
+      + rewrite Et. rewrite andb_false_r. cbn [andb]. auto.
+  Qed.
 End Byte.
